@@ -6,7 +6,7 @@ from ..fn import World
 from ..index import AnalysisError, dotted, REPO
 from ..astutil import text, short, endswith, calls_in, walk_no_nested
 from ._h_F import (ifn, Res, res_of, atoms, canon, is_none, isinstance_atom, call_arg, absent,
-                   iterations)
+                   iterations, need, repo_callees, strip_wrappers)
 
 EXPLANATION = (
   "Decides (R1) that every object code encode_object can emit is accepted by decode_object and is "
@@ -268,26 +268,33 @@ def r2_marshal_safety(run, w):
         text(e.args[0]) == text(g.generators[0].target) and text(e.args[1]) == "str"
   dict_ret = [(n, v) for (n, v) in rets if isinstance(v, ast.List) and v.elts and
               text(v.elts[0]) == "'O'"]
-  ok = bool(dict_ret) and all(r.known(n.id, all_keys_str, True) for (n, v) in dict_ret)
-  run.ob(R2, fn.qualname, "if not all(isinstance(key, str) ...): raise UnmarshallableError",
-         "dicts with non-string keys are not emitted as objects", ok, fi=fn.fi)
+  def dict_branch():
+    need(dict_ret, "the return that emits an object (['O', ...])", fn)
+    ok = all(r.known(n.id, all_keys_str, True) for (n, v) in dict_ret)
+    run.ob(R2, fn.qualname, "if not all(isinstance(key, str) ...): raise UnmarshallableError",
+           "dicts with non-string keys are not emitted as objects", ok, fi=fn.fi)
+  run.guard(dict_branch)
   # RaisedException fields: every assignment to _name/_message/details is an exact str or None
   cls = w.repo.cls("objtypes.RaisedException")
   fields = ("_name", "_message", "details")
   for mname, m in sorted(cls.methods.items()):
     if mname in ("decode_args", "no_traceback"):
       continue   # copies of already-encoded fields / decoded (marshalled) input
-    mr = res_of(w, w.fn_of(m))
-    for n in mr.cfg.nodes:
-      st = n.stmt
-      if n.kind == "stmt" and isinstance(st, (ast.Assign, ast.AugAssign)):
-        tg = st.targets[0] if isinstance(st, ast.Assign) else st.target
-        if isinstance(tg, ast.Attribute) and tg.attr in fields and text(tg.value) == "self":
-          ok = _exact_str(mr, n, st.value)
-          run.ob(R2, m.qualname,
-                 ("self.%s %s %s" % (tg.attr, "=" if isinstance(st, ast.Assign) else "+=",
-                                     mr.norm(st.value, n.id)))[:80],
-                 "exception field sent to Node is an exact str or None", ok, fi=m, node=st)
+    mf = ifn(w, m.qualname)
+    mr = res_of(w, mf)
+    def fields_of(mf=mf, mr=mr, m=m):
+      for n in mr.cfg.nodes:
+        st = n.stmt
+        if n.kind == "stmt" and isinstance(st, (ast.Assign, ast.AugAssign)):
+          tgs = st.targets if isinstance(st, ast.Assign) else [st.target]
+          for tg in tgs:
+            if isinstance(tg, ast.Attribute) and tg.attr in fields and text(tg.value) == "self":
+              ok = _exact_str(w, mf, mr, n, st.value)
+              run.ob(R2, m.qualname,
+                     ("self.%s %s %s" % (tg.attr, "=" if isinstance(st, ast.Assign) else "+=",
+                                         mr.norm(st.value, n.id)))[:80],
+                     "exception field sent to Node is an exact str or None", ok, fi=m, node=st)
+    run.guard(fields_of)
   # RecordSet._get_encodable_row_ids returns an exact list/tuple: the stored row ids only under an
   # exact-type test, otherwise rebuilt with list()/tuple()
   ge = ifn(w, "records.RecordSet._get_encodable_row_ids")
@@ -303,11 +310,15 @@ def r2_marshal_safety(run, w):
       run.ob(R2, ge.qualname, "return " + short(leaf), "row ids leave as an exact list/tuple (a "
              "list subclass such as RecordList is not marshallable)", ok, fi=ge.fi, node=n.stmt)
   ea = ifn(w, "objtypes.RaisedException.encode_args")
-  ok = any(isinstance(n, ast.Dict) and [text(k) for k in n.keys] == ["'u'"] and
-           isinstance(n.values[0], ast.Call) and dotted(n.values[0].func) == "encode_object"
-           for n in ast.walk(ea.node))
-  run.ob(R2, ea.qualname, "{'u': encode_object(self.user_input)}", "user input kept with an "
-         "exception is itself encoded", ok, fi=ea.fi)
+  def kept_input():
+    ds = [n for n in ast.walk(ea.node) if isinstance(n, ast.Dict) and
+          [text(k) for k in n.keys] == ["'u'"]]
+    need(ds, "the {'u': ...} record of the remembered user input", ea)
+    ok = all(isinstance(n.values[0], ast.Call) and
+             endswith(ea.name(n.values[0]), "encode_object") for n in ds)
+    run.ob(R2, ea.qualname, "{'u': encode_object(self.user_input)}", "user input kept with an "
+           "exception is itself encoded", ok, fi=ea.fi)
+  run.guard(kept_input)
 
 
 def _names(target):
@@ -344,14 +355,13 @@ def r4_exception_roundtrip(run, w):
         ok = ok and r.known(at.id, has_input, False, facts)
       else:
         ok = False
-  if not slots:
-    ok = absent(w, ea, "the {'u': ...} slot of the encoded argument list")
+  need(slots, "the {'u': ...} slot of the encoded argument list", ea)
   run.ob(R4, ea.qualname, "user_input = {'u': encode_object(...)} if self.has_user_input() else None",
          "the 'u' key is present exactly when an input was remembered", ok, fi=ea.fi)
   hu = ifn(w, "objtypes.RaisedException.has_user_input")
   e = res_of(w, hu).result_expr()
-  ok = False
-  if e is not None:
+  need(e is not None, "the test has_user_input() returns (a single boolean expression)", hu)
+  if True:
     a, pol = canon(e)
     ok = (not pol) and isinstance(a, ast.Compare) and isinstance(a.ops[0], ast.Is) and \
         {text(a.left).replace("RaisedException.", "self."),
@@ -365,6 +375,7 @@ def r4_exception_roundtrip(run, w):
   sets = [n for n in cfg.nodes if n.kind == "stmt" and isinstance(n.stmt, ast.Assign) and
           text(n.stmt.targets[0]).endswith(".user_input")]
   final = [n for n in sets if not (cfg.reach_after({n.id}) & {m.id for m in sets})]
+  need(final, "the assignment of <exception>.user_input", da)
   ok = len(final) == 1 and cfg.dominated_by(cfg.exit.id, {final[0].id})
   if ok:
     v = dr.expand(final[0].stmt.value, final[0].id)
@@ -377,8 +388,10 @@ def r4_exception_roundtrip(run, w):
          "no input", ok, fi=da.fi)
 
 
-def _exact_str(r, n, v, depth=0):
-  """Is v (evaluated at node n of the function of r) an exact str or None?"""
+def _exact_str(w, fn, r, n, v, depth=0):
+  """Is v (evaluated at node n of function fn / its Res r) an exact str or None? A call of a
+  repo function is followed into that function's returns; a call that cannot be followed is
+  undecidable (AnalysisError), a raw value (attribute, subscript, parameter) is not exact."""
   if isinstance(v, ast.Constant):
     return v.value is None or isinstance(v.value, str)
   if isinstance(v, ast.JoinedStr):
@@ -389,11 +402,30 @@ def _exact_str(r, n, v, depth=0):
       return True
     if isinstance(v.func, ast.Attribute) and v.func.attr in ("format", "join"):
       return True
-    return False
+    tg = repo_callees(w, fn, v)
+    if tg and depth < 3:
+      for t in tg:
+        g = ifn(w, t.qualname)
+        gr = res_of(w, g)
+        rets = gr.returns(expand=False)
+        if not rets or gr.falls_off_end():
+          raise AnalysisError("%s: what %s() returns is not understood" % (fn.qualname, t.qualname))
+        for (rn, rv) in rets:
+          if not _exact_str(w, g, gr, rn, rv, depth + 1):
+            return False
+      return True
+    raise AnalysisError("%s: cannot decide whether %s returns an exact str"
+                        % (fn.qualname, short(v, 60)))
   if isinstance(v, ast.BinOp) and isinstance(v.op, ast.Add):
-    return _exact_str(r, n, v.left, depth) and _exact_str(r, n, v.right, depth)
+    return _exact_str(w, fn, r, n, v.left, depth) and _exact_str(w, fn, r, n, v.right, depth)
   if isinstance(v, ast.IfExp):
-    return _exact_str(r, n, v.body, depth) and _exact_str(r, n, v.orelse, depth)
+    return _exact_str(w, fn, r, n, v.body, depth) and _exact_str(w, fn, r, n, v.orelse, depth)
+  if isinstance(v, ast.Subscript) and isinstance(v.slice, ast.Constant) and \
+      isinstance(v.slice.value, int) and depth < 6:
+    # element of a tuple/list whose members are visible (x, y = helper(...) -> helper(...)[0])
+    base = r.expand(v.value, n.id)
+    if isinstance(base, (ast.Tuple, ast.List)) and v.slice.value < len(base.elts):
+      return _exact_str(w, fn, r, n, base.elts[v.slice.value], depth + 1)
   if isinstance(v, ast.Name) and depth < 6:
     # a local: every definition that reaches this point is itself an exact str
     defs, entry = r.reaching(n.id, v.id)
@@ -402,7 +434,7 @@ def _exact_str(r, n, v, depth=0):
     for d in defs:
       dn = r.cfg.nodes[d]
       pv = r._plain_value(dn, v.id)
-      if pv is None or not _exact_str(r, dn, pv, depth + 1):
+      if pv is None or not _exact_str(w, fn, r, dn, pv, depth + 1):
         return False
     return True
   if isinstance(v, ast.Attribute):
@@ -445,27 +477,46 @@ def r3_reply_paths(run, w):
   # every list of actions placed in a reply is mapped through get_action_repr
   for q, attrs in (("action_obj.ActionGroup.get_repr", ("calc", "stored", "undo")),
                    ("action_obj.ActionBundle.to_json_obj", ("stored", "calc", "undo"))):
-    fn = w.fn(q)
+    fn = ifn(w, q)
     r = res_of(w, fn)
     for a in attrs:
-      ok = False
-      for (it, tg, body, owner) in iterations(fn.node):
-        if r.norm(it) == "self." + a:
-          ok = ok or any(endswith(fn.name(c), "get_action_repr") and
-                         any(isinstance(x, ast.Name) and x.id in _names(tg)
-                             for x in list(c.args) + [k.value for k in c.keywords])
-                         for b in body for c in calls_in(b))
-      run.ob(R3, q, "[... get_action_repr(a) ... for a in self.%s]" % a,
-             "actions of the %s list are encoded before leaving the sandbox" % a, ok, fi=fn.fi)
+      def reply_list(fn=fn, r=r, a=a, q=q):
+        # the iterations over self.<a> (loops / comprehensions, also through a local alias)
+        its = []
+        for (it, tg, body, owner) in iterations(fn.node):
+          at = r.nodes_of(owner) if isinstance(owner, ast.For) else r.node_of_expr(it)
+          if r.norm(strip_wrappers(it), at[0].id if at else None) == "self." + a:
+            its.append((tg, body))
+        need(its, "the place where self.%s is turned into the reply's list" % a, fn)
+        ok = all(any(endswith(fn.name(c), "get_action_repr") and
+                     any(isinstance(x, ast.Name) and x.id in _names(tg)
+                         for x in list(c.args) + [k.value for k in c.keywords])
+                     for b in body for c in calls_in(b)) for (tg, body) in its)
+        run.ob(R3, q, "[... get_action_repr(a) ... for a in self.%s]" % a,
+               "actions of the %s list are encoded before leaving the sandbox" % a, ok, fi=fn.fi)
+      run.guard(reply_list)
   for name in ("fetch_table", "fetch_meta_tables", "create_migrations"):
     q = "main.run." + name
-    fn = w.fn(q)
-    rets = res_of(w, fn).returns()
-    ok = bool(rets) and all(any(endswith(dotted(c.func), "get_action_repr")
-                                for c in calls_in(v)) for (n, v) in rets) and \
-        not res_of(w, fn).falls_off_end()
-    run.ob(R3, q, "return ... actions.get_action_repr(...)", "table data returned to Node is "
-           "encoded", ok, fi=fn.fi)
+    fn = ifn(w, q)
+    def table_reply(fn=fn, q=q):
+      fr = res_of(w, fn)
+      rets = fr.returns()
+      need(rets and not fr.falls_off_end(), "the value returned to Node", fn)
+      ok = True
+      for (n, v) in rets:
+        if any(endswith(fn.name(c), "get_action_repr") for c in calls_in(v)):
+          continue
+        # not encoded here: undecided when the value comes out of a repo helper we cannot see into
+        opaque = [c for c in calls_in(v) if repo_callees(w, fn, c) and
+                  not endswith(fn.name(c), "fetch_table", "fetch_meta_tables", "create_migrations",
+                               "table_data_from_db")]
+        if opaque:
+          raise AnalysisError("%s: the reply is produced by %s, which is not followed"
+                              % (q, short(opaque[0].func, 50)))
+        ok = False
+      run.ob(R3, q, "return ... actions.get_action_repr(...)", "table data returned to Node is "
+             "encoded", ok, fi=fn.fi)
+    run.guard(table_reply)
   fe = ifn(w, "main.run.get_formula_error")
   rets = res_of(w, fe).returns()
   ok = bool(rets) and all(isinstance(leaf, ast.Call) and
